@@ -1308,6 +1308,11 @@ def run(ctx):
         "routes forced: intersects {default,no1,no2Ain,no1-no2A,noconvex,noconvex-no4,only5,unscaled,unscaled-no1,unscaled-no1-no2B,unscaled-noconvex[,unscaled-only5]}; "
         "containsObject mesh {default,no1,no2a,noconvex,noconvex-no3,noconvex-no4,only5,no1-only5}; footprint {default,noplanar,objnonconvex,objnonconvex-nohull}; composite {default,noconvex,general,no1-general}",
         "the planar-box fast path of Object.intersects cannot be forced ON for other shapes (it would be unsound); it is forced OFF (noplanar) in every non-default route",
+        "every pass could be made inconclusive from outside (no /repo edit): PASS 1 via _circumradius=inf; PASS 2A via _interiorPointRadii=(0,inf); PASS 2B and containsObject PASS 1 via a Trimesh subclass "
+        "whose .bounds is infinite only when read from those two functions' own frames; PASS 3 via an fcl shim whose collide() says no and isConvex=False; PASS 4 via _bodyCount=2; containsObject PASS 2 via "
+        "isConvex=False / an unreachable boundingBox; PASS 3/4 via making the candidate interior point unavailable.  When intersects PASS 3 is disabled PASS 4 must be skipped too (it presupposes that "
+        "PASS 3 found no surface collision), so that route is decided by PASS 5 alone",
+        "not judged here: Object.intersects(Region) (only object/object and Region.containsObject are in the lattice); MeshSurfaceRegion / PolygonalFootprintRegion branches of MeshVolumeRegion.intersects",
     ]
     ctx.notes += sorted(tot["notes"])
     # vacuity guards, per family: a guard is waived only if the same family already has
